@@ -181,7 +181,7 @@ def n_info(secure):
     opt_auth = (None, ("u", "p"))[sx.choice("opt_auth", 2)]
     env, meaning = {}, {}
     for idx, name in enumerate(("http_proxy", "HTTP_PROXY", "https_proxy", "HTTPS_PROXY")):
-        v = sx.choice(name, 3)
+        v = sx.choice(name, 3 if name.isupper() else 4)  # lower-case variables may also be SET BUT BLANK (then they still shadow their upper-case twin)
         label = name.lower().replace("_", "") + ("u" if name.isupper() else "l")
         if v == 1:
             env[name] = "http://%s.example:%d/" % (label, 8001 + idx)
@@ -189,7 +189,10 @@ def n_info(secure):
         elif v == 2:
             env[name] = "http://us%%40er:pw@%s-auth.example:9000" % label
             meaning[name] = (label + "-auth.example", 9000, ("us@er", "pw"))
-    np_src = sx.choice("np_src", 4)  # none / option exempt / env exempt / option not matching + env exempt
+        elif v == 3:
+            env[name] = ""
+            meaning[name] = (None, 0, None)
+    np_src = sx.choice("np_src", 5)  # none / option exempt / env exempt / option not matching + env exempt
     no_proxy_opt = None
     if np_src == 1:
         no_proxy_opt = ["target.example"]
@@ -198,6 +201,9 @@ def n_info(secure):
     elif np_src == 3:
         no_proxy_opt = ["other.example"]
         env["no_proxy"] = "target.example"
+    elif np_src == 4:  # a blank no_proxy shadows NO_PROXY: nothing is exempt
+        env["no_proxy"] = ""
+        env["NO_PROXY"] = "target.example"
     with _Patch(os=FakeEnv(real_os, env)) as U:
         try:
             got = U.get_proxy_info("target.example", secure, opt_host, opt_port, opt_auth, no_proxy_opt)
@@ -414,8 +420,8 @@ def obligations(tier):
                    must_cover=["cidr"], kernel=["_url._is_address_in_network", "_is_subnet_address", "_is_no_proxy_host"]),
         Obligation("N-syntax", n_subnet_syntax, [dict(kind=k) for k in ("noslash", "two", "badmask", "33", "neg", "badip", "ok8", "ok32", "ok0")],
                    bounds="9 CIDR syntax cases through the real socket.inet_aton", must_cover=["syntax"], kernel=["_url._is_subnet_address"]),
-        Obligation("N-info", n_info, [dict(secure=s) for s in (False, True)], bounds="proxy host/port/auth options x {unset, plain, with credentials} for each of "
-                   "http_proxy, HTTP_PROXY, https_proxy, HTTPS_PROXY x 4 no_proxy source patterns, ws and wss (full product)",
+        Obligation("N-info", n_info, [dict(secure=s) for s in (False, True)], bounds="proxy host/port/auth options x {unset, plain, with credentials; lower-case names also set-but-blank} for each of "
+                   "http_proxy, HTTP_PROXY, https_proxy, HTTPS_PROXY x 5 no_proxy source patterns (incl. a blank no_proxy next to NO_PROXY), ws and wss (full product)",
                    must_cover=["proxied", "direct"], budget_s=1800, kernel=["_url.get_proxy_info", "_is_no_proxy_host"]),
         Obligation("N-env-auth", n_env_auth, [dict(secure=s, upper=u) for s in (False, True) for u in (False, True)],
                    bounds="proxy URL in http_proxy / https_proxy (lower and upper case) with percent-encoded user and password from a catalogue of 9 "
